@@ -70,3 +70,128 @@ def _call(inp):
 CONTRACTS[Q + ":_evaluate"].gen = _gen
 CONTRACTS[Q + ":_evaluate"].call = _call
 CONTRACTS[Q + ":_evaluate"].props = "C09"
+
+
+# ====================================================================== trivial_bounds (C09 bounds clause)
+def prove_c09_bounds(tier, seed):
+    """trivial_bounds consists of whole-array numpy operations only.  Its statements are read from /repo and evaluated
+    over an abstract algebra of those operations (flat, sort, rev, mul, sum; `np.empty(n, T)` + `a[:] = e` = a copy of
+    e converted to T); the two returned expression trees must be
+        lower = sum(mul(rev(sort(flat(distances))), sort(flat(flows))))
+        upper = sum(mul(     sort(flat(distances)),  sort(flat(flows))))
+    computed in unsigned 64-bit buffers.  That these two sums bound the objective of every assignment is the
+    rearrangement inequality (lean/A4.lean, checked by Lean 4 + Mathlib in the thorough tier) applied to the flattened
+    matrices and the permutation of index pairs (i, j) -> (p(i), p(j)) that an assignment p induces."""
+    import ast as _ast
+    from pyvc.extract import get_function
+    from pyvc.floatsym import Res
+    P = frozenset(["C09"])
+    qn = "moptipyapps.qap.instance:trivial_bounds"
+    res = []
+
+    class Unknown(Exception):
+        pass
+
+    try:
+        fs = get_function(qn)
+        env = {"distances": ("D",), "flows": ("F",)}
+        buf_type = {}
+        ret = None
+
+        def ev(e):
+            if isinstance(e, _ast.Name):
+                if e.id in env:
+                    return env[e.id]
+                raise Unknown(e.id)
+            if isinstance(e, _ast.Constant):
+                return ("const", e.value)
+            if isinstance(e, _ast.Subscript) and isinstance(e.slice, _ast.Slice):
+                sl = e.slice
+                if sl.lower is None and sl.upper is None and sl.step is None:
+                    return ev(e.value)
+                if sl.lower is None and sl.upper is None and isinstance(sl.step, _ast.UnaryOp) \
+                        and isinstance(sl.step.op, _ast.USub) and getattr(sl.step.operand, "value", None) == 1:
+                    return ("rev", ev(e.value))
+                raise Unknown(_ast.unparse(e))
+            if isinstance(e, _ast.Call):
+                f = e.func
+                if isinstance(f, _ast.Name) and f.id == "int" and len(e.args) == 1:
+                    return ev(e.args[0])
+                if isinstance(f, _ast.Name) and f.id == "len" and len(e.args) == 1:
+                    return ("len", ev(e.args[0]))
+                if isinstance(f, _ast.Attribute) and f.attr == "flatten" and not e.args:
+                    return ("flat", ev(f.value))
+                if isinstance(f, _ast.Attribute) and f.attr == "sum" and not e.args:
+                    return ("sum", ev(f.value))
+                if isinstance(f, _ast.Attribute) and getattr(f.value, "id", "") in ("np", "numpy"):
+                    if f.attr == "multiply" and len(e.args) in (2, 3):
+                        a, b = ev(e.args[0]), ev(e.args[1])
+                        v = ("mul", a, b)
+                        if len(e.args) == 3:
+                            if not isinstance(e.args[2], _ast.Name):
+                                raise Unknown("out=")
+                            env[e.args[2].id] = v
+                        return v
+                    if f.attr == "empty" and len(e.args) == 2:
+                        return ("empty", ev(e.args[0]), _ast.unparse(e.args[1]))
+                    if f.attr == "sort" and len(e.args) == 1 and not e.keywords:
+                        return ("sort", ev(e.args[0]))
+                raise Unknown(_ast.unparse(e))
+            if isinstance(e, _ast.Tuple):
+                return tuple(ev(x) for x in e.elts)
+            if isinstance(e, _ast.BinOp) and isinstance(e.op, _ast.Mult):
+                a, b = ev(e.left), ev(e.right)
+                scalar = lambda t: t[0] in ("len", "const", "times")
+                return ("times", a, b) if scalar(a) and scalar(b) else ("mul", a, b)
+            raise Unknown(_ast.unparse(e))
+
+        body = [s for s in fs.node.body if not (isinstance(s, _ast.Expr) and isinstance(s.value, _ast.Constant))]
+        for s in body:
+            if isinstance(s, (_ast.Assign, _ast.AnnAssign)):
+                tgt = s.targets[0] if isinstance(s, _ast.Assign) else s.target
+                if isinstance(tgt, _ast.Name):
+                    v = ev(s.value)
+                    if v[0] == "empty":
+                        buf_type[tgt.id] = (v[2], v[1])
+                        env[tgt.id] = ("uninit",)
+                    else:
+                        env[tgt.id] = v
+                elif isinstance(tgt, _ast.Subscript) and isinstance(tgt.value, _ast.Name) and tgt.value.id in buf_type \
+                        and isinstance(tgt.slice, _ast.Slice) and tgt.slice.lower is None and tgt.slice.upper is None \
+                        and tgt.slice.step is None:
+                    env[tgt.value.id] = ev(s.value)
+                else:
+                    raise Unknown(_ast.unparse(s))
+            elif isinstance(s, _ast.AugAssign) and isinstance(s.target, _ast.Name) and isinstance(s.op, _ast.Mult):
+                env[s.target.id] = ("times", env[s.target.id], ev(s.value))
+            elif isinstance(s, _ast.Expr) and isinstance(s.value, _ast.Call) and isinstance(s.value.func, _ast.Attribute) \
+                    and s.value.func.attr == "sort" and isinstance(s.value.func.value, _ast.Name) and not s.value.args \
+                    and not s.value.keywords:
+                env[s.value.func.value.id] = ("sort", env[s.value.func.value.id])
+            elif isinstance(s, _ast.Return):
+                ret = ev(s.value)
+            else:
+                raise Unknown(_ast.unparse(s))
+        sd, sf = ("sort", ("flat", ("D",))), ("sort", ("flat", ("F",)))
+
+        def same_mul(got, a, b):      # multiplication commutes
+            return got in (("sum", ("mul", a, b)), ("sum", ("mul", b, a)))
+        ok_lo = isinstance(ret, tuple) and len(ret) == 2 and (same_mul(ret[0], ("rev", sd), sf) or same_mul(ret[0], sd, ("rev", sf)))
+        ok_hi = isinstance(ret, tuple) and len(ret) == 2 and (same_mul(ret[1], sd, sf) or same_mul(ret[1], ("rev", sd), ("rev", sf)))
+        res.append(Res(qn, "post", "lower-bound-pairs-largest-with-smallest", P, "proved" if ok_lo else "refuted", backend="normal-form",
+                       witness=None if ok_lo else {"code": str(ret[0] if isinstance(ret, tuple) else ret)},
+                       reason="operation tree of the real function vs sum(sort(flows) * reverse(sort(distances)))"))
+        res.append(Res(qn, "post", "upper-bound-pairs-largest-with-largest", P, "proved" if ok_hi else "refuted", backend="normal-form",
+                       witness=None if ok_hi else {"code": str(ret[1] if isinstance(ret, tuple) and len(ret) > 1 else ret)},
+                       reason="operation tree of the real function vs sum(sort(flows) * sort(distances))"))
+        n2 = ("times", ("len", ("D",)), ("len", ("D",)))
+        ok_t = bool(buf_type) and all(t == "DEFAULT_UNSIGNED_INT" and n == n2 for t, n in buf_type.values())
+        res.append(Res(qn, "range", "sorted-copies-and-products-in-uint64-buffers-of-n*n-cells", P,
+                       "proved" if ok_t else "undecided", backend="normal-form",
+                       witness=None if ok_t else {"buffers": str(buf_type)},
+                       reason="every temporary is np.empty(len(distances)**2, DEFAULT_UNSIGNED_INT): sorting and the products "
+                              "happen in unsigned 64 bit regardless of the (possibly narrow) dtype of the given matrices"))
+    except Unknown as ex:
+        res.append(Res(qn, "post", "operation-tree", P, "undecided", backend="normal-form",
+                       reason=f"statement outside the whole-array algebra: {ex}"))
+    return res
